@@ -314,7 +314,7 @@ class Index:
             else: return True
             if rid in self.funcs:
                 if self.may_throw(rid, stack): return True
-            elif 'noexcept' not in rty and rname not in NOTHROW_EXTERNALS + LIBC + ('min', 'max', 'abs', 'swap', 'move', 'forward', 'size', 'data', 'c_str', 'length', 'empty', 'begin', 'end'):
+            elif 'noexcept' not in rty and rname not in NOTHROW_EXTERNALS + LIBC + ('min', 'max', 'abs', 'swap', 'move', 'forward', 'size', 'data', 'c_str', 'length', 'empty', 'begin', 'end') and not getattr(self, 'externals_nothrow', False):
                 return True
         if k in ('CXXConstructExpr', 'CXXTemporaryObjectExpr'):
             # constructor resolved by class + signature
@@ -328,7 +328,7 @@ class Index:
                             if self.may_throw(fid, stack): return True
                     break
             else:
-                if 'std::' in t and 'noexcept' not in n.get('ctorType', {}).get('qualType', ''): return True
+                if 'std::' in t and 'noexcept' not in n.get('ctorType', {}).get('qualType', '') and not getattr(self, 'externals_nothrow', False): return True
         return any(self._node_throws(c, stack) for c in n.get('inner', []))
     def has_body(self, fid):
         return any(c.get('kind') == 'CompoundStmt' for c in self.funcs[fid][1].get('inner', []))
